@@ -1251,6 +1251,9 @@ def solve_ivp(fun, t_span, y0, method='RK45', t_eval=None, dense_output=False,
         fn_args_kwargs = inspect.getfullargspec(fn)
         constants = {key:value for key,value in zip(fn_args_kwargs[0][2:], args)}
         
+    if getattr(getattr(y0, 'dtype', None), 'kind', 'f') in ('i', 'u', 'b') or isinstance(y0, (int, list, tuple)):
+        # an integer-typed initial state is promoted to floating point, as scipy's solve_ivp does
+        y0 = D.ar_numpy.asarray(np.asarray(y0, dtype=np.result_type(np.asarray(y0).dtype, np.float64)))
     max_step = options.get("max_step", np.inf)
     min_step = options.get("min_step", 0.0)
     
